@@ -339,6 +339,8 @@ impl PageCache {
                 return Ok(PageRef { cache: self, key });
             }
         }
+        #[cfg(kahflane_turdb_verif)]
+        crate::verif_hooks::sched_point(501);
 
         let shard = self.shard(&key);
         let mut guard = shard.write();
@@ -516,6 +518,8 @@ impl PageCache {
 
     pub fn clear(&self) {
         let page_count = self.len();
+        #[cfg(kahflane_turdb_verif)]
+        crate::verif_hooks::sched_point(502);
 
         for shard in &self.shards {
             let mut guard = shard.write();
